@@ -333,7 +333,7 @@ func verifHosts(l *roundRobinLoadBalancer) []*Host { return l.hosts.Load().([]*H
 
 // C18: ClientConn.codec is declared immutable (written once, before the reader goroutine is
 // started). Handshake is brought under contract only for the lock/immutability discipline.
-//@ func proxycore.ClientConn.SendAndReceive [C01]
+//@ func proxycore.ClientConn.SendAndReceive [C01, C02]
 //@   requires c != nil && c.closingMu != nil && c.pending != nil && c.conn != nil
 //@   modifies c.inflight, c.pending.$has, c.pending.$tag, c.pending.$val
 
